@@ -152,6 +152,7 @@ def run(ctx):
     run_rel_checker(ctx)
     run_tuples(ctx)
     run_temporal_text(ctx)
+    run_windows(ctx)
 
 
 # ---------------------------------------------------------------- string indexing / slicing: per-dialect ASTs on the C25 evaluator
@@ -649,6 +650,167 @@ def run_temporal_text(ctx):
         ctx.count('temporal-text:model-compared')
         if out.get('literal') != lit or out.get('param') != par:
             ctx.divergence('model text of a date/time literal / parameter differs from the real SQLite code', {'value': repr(v)}, model=out, impl={'literal': lit, 'param': par})
+
+
+# ---------------------------------------------------------------- LIMIT / OFFSET of composed windows, every dialect
+
+def _level_pair(form, a, b):
+    """the (limit, offset) a form denotes (Query.limit / __getitem__ / page), and its Python reading on a list"""
+    if form == 'limit': return (a, b), (lambda R: (R[(b or 0):] if a is None else R[(b or 0):][:a]))
+    if form == 'slice':
+        st = a or 0
+        pair = (None, st) if b is None else ((0, None) if st >= b else (b - st, st))
+        if b is None and st == 0: pair = (None, None)
+        return pair, (lambda R: R[a:b])
+    if form == 'page': return (b, (a - 1) * b), (lambda R: R[(a - 1) * b:(a - 1) * b + b])
+    raise ValueError(form)
+
+
+def _level_src(form, a, b):
+    return {'limit': '.limit(%r, offset=%r)' % (a, b), 'slice': '[%s:%s]' % ('' if a is None else a, '' if b is None else b), 'page': '.page(%r, %r)' % (a, b)}[form]
+
+
+def _parse_clause(prov, sql):
+    """the LIMIT / OFFSET numbers of a statement's text -> clause JSON for the driver, or (None, why)"""
+    import re
+    flat = ' '.join(sql.split())
+    if prov == 'oracle':
+        le = re.findall(r'ROWNUM <= (\S+)', flat); gt = re.findall(r'"row-num" > (\S+)', flat)
+        if len(le) > 1 or len(gt) > 1 or re.search(r'\bLIMIT\b', flat): return None, 'more than one ROWNUM wrapper / a LIMIT keyword'
+        if not le and not gt: return {'kind': 'absent'}, None
+        try: return {'kind': 'rownum', 'le': int(le[0]) if le else None, 'gt': int(gt[0]) if gt else None}, None
+        except ValueError: return None, 'non-numeric ROWNUM bound'
+    ms = re.findall(r'\bLIMIT\s+(\S+)(?:\s+OFFSET\s+(\S+))?', flat)
+    if len(ms) > 1 or 'ROWNUM' in flat: return None, 'more than one LIMIT clause'
+    if not ms: return ({'kind': 'absent'}, None) if 'OFFSET' not in flat else (None, 'OFFSET without LIMIT')
+    lim, off = ms[0]
+    try: return {'kind': 'limit', 'lim': None if lim.lower() == 'null' else int(lim), 'off': int(off) if off else None}, None
+    except ValueError: return None, 'non-numeric LIMIT / OFFSET'
+
+
+WINDOW_PROBES = [
+    [('limit', 3, None), ('slice', 5, 7)], [('limit', 3, 2), ('limit', 2, 5)], [('limit', 1, None), ('slice', 2, 3)], [('limit', 3, None), ('limit', None, 3)],
+    [('limit', 3, None), ('limit', None, 4)], [('limit', 4, 2), ('limit', 2, 1)], [('limit', 4, 2), ('limit', 3, 4)], [('limit', 4, 1), ('page', 2, 3)],
+    [('limit', 4, 1), ('page', 3, 2)], [('limit', 5, 1), ('limit', 5, 1), ('limit', 1, 1)], [('limit', 5, 1), ('limit', 2, 4), ('limit', 3, 1)],
+    [('limit', 5, 1), ('limit', None, 6), ('slice', None, 2)], [('limit', 0, None)], [('slice', 2, 2)], [('page', 3, 0)], [('limit', None, 4)], [('slice', 3, None)],
+    [('limit', None, 2), ('limit', None, 3)], [('limit', None, 2), ('page', 1, 4), ('page', 2, 1)], [('page', 2, 4), ('slice', 1, 2)], [('page', 1, 3), ('slice', 5, 7)], [('page', 2, 3), ('page', 3, 2)], [('limit', 20, 8), ('limit', 20, 8)],
+]
+
+
+def run_windows(ctx):
+    """Composed LIMIT / OFFSET windows (limit-then-slice, slice-then-limit, page of a limited query, three levels) on every dialect.
+    The REAL translator + builder of each provider produce the statement; its LIMIT / OFFSET numbers (Oracle: ROWNUM bounds) are read
+    from the text and given to the Lean model (op window): (a) what the clause MEANS on that backend (a negative LIMIT is 'no limit' on
+    SQLite and an error on PostgreSQL / MySQL) must be the Python windows applied one after another — violation otherwise;
+    (b) the clause must be the model's clause for the combined pair (C02_window_dialects) — divergence otherwise.  SQLite executes the
+    real forms (q.limit / q[a:b] / q.page over select(x for x in <limited query>)) and its answer must equal the Python list.
+    Any exception of the real code on these valid inputs is a verdict, not a crash."""
+    from pony.orm import Database, Required, PrimaryKey
+    from pony.orm.core import TranslationError
+    rng = ctx.rng
+    ponyutil.add_stubs()
+    from pony.orm.tests.testutils import TestDatabase
+    N = 10
+    dbs = {}
+    for prov, _ in PROVIDERS:
+        db = Database() if prov == 'sqlite' else TestDatabase()
+        class P(db.Entity):
+            id = PrimaryKey(int)
+            k = Required(int)
+        db.bind(prov, ':memory:'); db.generate_mapping(create_tables=(prov == 'sqlite'), check_tables=False)
+        dbs[prov] = (db, P)
+    with db_session:
+        for i in range(1, N + 1): dbs['sqlite'][1](id=i, k=i % 3)
+    ids = list(range(1, N + 1))
+    vals = [None, 0, 1, 2, 3, 5, 8, 20]
+    def rand_level(last):
+        # q[a:b] fetches at once and a fetched, non-empty result is a plain tuple for select(): only the lazy forms can be iterated again
+        f = rng.choice(['limit', 'limit', 'slice', 'slice', 'page'] if last else ['limit', 'limit', 'page'])
+        if f == 'limit':
+            a, b = rng.choice(vals), rng.choice(vals)
+            if a is None and b is None: a = rng.choice(vals[1:])
+            return (f, a, b)
+        if f == 'slice':
+            a, b = rng.choice(vals), rng.choice(vals)
+            return (f, a, b)
+        return (f, rng.choice([1, 1, 2, 3, 4]), rng.choice([0, 1, 2, 3, 5]))
+    chains = [list(c) for c in WINDOW_PROBES] + [[rand_level(i + 1 == n) for i in range(n)] for n in (rng.choice([1, 2, 2, 2, 3, 3]) for _ in range(ctx.scale(120, 1200)))]
+    reqs, meta = [], []
+    for chain in chains:
+        proj = rng.choice(['p', 'p.id'])
+        pairs, expected = [], ids
+        for f, a, b in chain:
+            pr, rd = _level_pair(f, a, b); pairs.append(pr); expected = rd(expected)
+        src = 'select(p for p in P).order_by(P.id)'
+        for i, (f, a, b) in enumerate(chain):
+            src += _level_src(f, a, b)
+            if i + 1 < len(chain): src = 'select(%s for p in %s)' % (proj if i + 2 == len(chain) else 'p', src)
+        inp = {'query': src, 'levels': [list(x) for x in chain], 'ids': ids}
+        ctx.case(['window', src], kind='window:%d-level' % len(chain))
+        for prov, _ in PROVIDERS:
+            db, P = dbs[prov]
+            got = sql = None
+            try:
+                with db_session:
+                    q = select(p for p in P).order_by(P.id)
+                    for i, (f, a, b) in enumerate(chain):
+                        last = i + 1 == len(chain)
+                        l, o = pairs[i]
+                        if prov == 'sqlite':
+                            if last: db._dblocal.last_sql = None
+                            r = q.limit(a, offset=b) if f == 'limit' else (q[a:b] if f == 'slice' else q.page(a, b))
+                            if last:
+                                got = [x if isinstance(x, int) else x.id for x in r]
+                                sql = db.last_sql or q._construct_sql_and_arguments(l, o)[0]      # the statement that was executed, if one was
+                        else:
+                            if last: sql = q._construct_sql_and_arguments(l, o)[0]
+                            else: r = q.limit(l, offset=o) if (l is not None or o is not None) else q
+                        if not last:
+                            q = select(p for p in r) if (i + 2 < len(chain) or proj == 'p') else select(p.id for p in r)
+            except (TranslationError, NotImplementedError) as e:
+                ctx.count('window:refused:%s' % prov)
+                ctx.divergence('the real code refuses a composed window the model covers', dict(inp, dialect=prov), model=expected, impl='%s: %s' % (type(e).__name__, e))
+                continue
+            except Exception as e:
+                ctx.violation('composing LIMIT / OFFSET windows raises on %s; the Python reading is a plain list' % DIALECT_NAME[prov], dict(inp, dialect=prov),
+                              observed='%s: %s' % (type(e).__name__, e), expected=expected, key='window-raises:%s' % type(e).__name__)
+                continue
+            flat = ' '.join((sql or '').split())
+            if prov == 'sqlite' and got != expected:
+                ctx.violation('a query over composed LIMIT / OFFSET windows does not return the Python windows applied one after another (SQLite, executed)',
+                              dict(inp, sql=flat), observed=got, expected=expected,
+                              key='window-answer:sqlite:%s' % ('negative-limit' if ' LIMIT -' in flat and ' LIMIT -1 ' not in flat + ' ' else 'wrong-window'))
+            clause, why = _parse_clause(prov, sql or '')
+            if clause is None:
+                ctx.count('window:statement-shape-unmodelled:%s' % prov)
+                ctx.divergence('the statement of a composed window has a shape the clause model does not cover: %s' % why, dict(inp, dialect=prov, sql=flat), model='one LIMIT clause / one pair of ROWNUM wrappers', impl=flat)
+                continue
+            if any(isinstance(clause.get(k), int) and clause[k] < 0 for k in ('off', 'le', 'gt')):
+                ctx.violation('the %s statement of a composed window carries a negative OFFSET / ROWNUM bound' % DIALECT_NAME[prov], dict(inp, dialect=prov, sql=flat),
+                              observed=clause, expected={'rows': expected}, key='window-clause:%s:negative-offset' % prov)
+                continue
+            reqs.append({'op': 'window', 'dialect': prov, 'levels': [list(x) for x in pairs], 'n': N, 'clause': clause}); meta.append((inp, prov, flat, clause, expected))
+    for db, _ in dbs.values():
+        try: db.disconnect()
+        except Exception: pass
+    if not ctx.driver.ok: return
+    for (inp, prov, flat, clause, expected), out in zip(meta, ctx.driver('C02', reqs)):
+        ctx.count('window:clause-checked:%s' % prov)
+        if 'error' in out or 'expected' not in out:
+            ctx.divergence('the window model rejects the request', dict(inp, dialect=prov), model=out, impl=clause); continue
+        if out['expected'] != expected:
+            ctx.divergence('the model of q.limit / q[a:b] / q.page as (limit, offset) pairs differs from the Python reading of the forms', inp, model=out['expected'], impl=expected); continue
+        if out['real_meaning'] != expected:
+            lim = clause.get('lim')
+            if prov == 'oracle' and clause['kind'] == 'absent' and out['combined'][0] == 0: key = 'oracle-limit-zero-unrestricted'
+            elif isinstance(lim, int) and lim < 0: key = 'window-clause:%s:negative-limit' % prov
+            else: key = 'window-clause:%s:wrong-window' % prov
+            ctx.violation('the LIMIT / OFFSET the %s statement carries does not mean the Python window on that backend%s' % (DIALECT_NAME[prov],
+                              ' (a negative LIMIT: no limit on SQLite, an error on PostgreSQL / MySQL)' if isinstance(lim, int) and lim < 0 else ''),
+                          dict(inp, dialect=prov, sql=flat, clause=clause),
+                          observed={'rows the backend returns (documented semantics; null = statement rejected)': out['real_meaning']}, expected=expected, key=key)
+        elif clause != out['model_clause']:
+            ctx.divergence('the LIMIT / OFFSET clause of the real statement differs from the model clause (same meaning)', dict(inp, dialect=prov, sql=flat), model=out['model_clause'], impl=clause)
 
 
 def _nodes(ast):
